@@ -2,11 +2,11 @@
 from vrun import Job
 
 LEVEL = 'exploration'
-RULE = ('dec: inputs = fixture chains/certificates/keys, every certificate of test/x509, SubjectPublicKeyInfo cut out of certificates, PEM in every '
+RULE = ('dec: inputs = fixture chains/certificates/keys (private keys raw and as PKCS#8 written by br_encode_rsa_pkcs8_der / br_encode_ec_pkcs8_der with and without public key), every certificate of test/x509, SubjectPublicKeyInfo cut out of certificates, PEM in every '
         'flag/line-ending style, several objects with surrounding text, malformed armour, plus seeded mutations of each (bit flip, truncation, byte '
         'replacement, deletion); consumers x509_minimal (with name elements), x509_decoder (both DN callbacks, dates, CA flag, signer), skey, pkey, '
         'PEM; for each input the full observable outcome under EVERY two-chunk split, all-one-byte pushes and random multi-chunk partitions with '
-        'zero-length pushes must equal the single-push outcome. tls: for key exchange {RSA, ECDHE_RSA, ECDHE_ECDSA, ECDH_RSA, ECDH_ECDSA} x '
+        'zero-length pushes must equal the single-push outcome; every PEM text is decoded again without a destination (setdest(0) / setdest not called; single push, one-byte, random partition): events, names and consumed byte counts as with a destination. tls: for key exchange {RSA, ECDHE_RSA, ECDHE_ECDSA, ECDH_RSA, ECDH_ECDSA} x '
         '{TLS 1.0, 1.2} x {full, resumed} x {no client auth, EC client cert} x {client, server}: a session is recorded (fixed seed), then the '
         'endpoint is replayed alone with the recorded incoming stream released causally (a segment only after the endpoint emitted what it had '
         'emitted when the peer produced that segment) under one-byte and random chunkings; emitted byte stream, delivered application bytes, '
@@ -17,7 +17,8 @@ ASSUMPTIONS = [
 ]
 EVAL = ['runs_two_chunk', 'runs_one_byte', 'runs_random_partition', 'replays']
 DISTINCT = ['input']
-REQUIRED = ['inputs', 'inputs_accepted', 'inputs_other', 'runs_two_chunk', 'runs_one_byte', 'runs_random_partition', 'scenarios', 'replays', 'runs_faulted', 'runs_inserted_alert']
+REQUIRED = ['inputs', 'inputs_accepted', 'inputs_other', 'runs_two_chunk', 'runs_one_byte', 'runs_random_partition', 'scenarios', 'replays', 'runs_faulted', 'runs_inserted_alert',
+            'inputs_skey_pkcs8_decoded', 'inputs_skey_pkcs8_other', 'cmp_pem_no_destination', 'pem_events_compared']
 EXHAUSTIVE = 'every two-chunk split point of every decoder input'
 NW = 16
 
